@@ -1626,6 +1626,14 @@ tpt_ev_validate(int op, tp_event_p ev, tp_udata_p tp_udata) {
 	    (uintptr_t)-1 == tp_udata->ident ||
 	    NULL == tp_udata->tpt)
 		return (EINVAL);
+	/* Other kind live in this record: add / enable would install over it
+	 * (timerfd leaks, read registration lost...). Read <-> write is a replace. */
+	if ((TP_CTL_ADD == op || TP_CTL_ENABLE == op) && 0 != tp_udata->tpdata &&
+	    TPDATA_EVENT_GET(tp_udata->tpdata) != ev->event &&
+	    (TP_EV_TIMER == ev->event || TP_EV_PROC == ev->event ||
+	     TP_EV_TIMER == TPDATA_EVENT_GET(tp_udata->tpdata) ||
+	     TP_EV_PROC == TPDATA_EVENT_GET(tp_udata->tpdata)))
+		return (EBUSY);
 	/* Extended checks. */
 	switch (ev->event) {
 	case TP_EV_READ:
@@ -1698,13 +1706,26 @@ tpt_ev_add(tpt_p tpt, tp_event_p ev, tp_udata_p tp_udata) {
 	if (NULL == tp_udata || NULL == tpt) /* Do not damage live tp_udata. */
 		return (EINVAL);
 	tpt_old = tp_udata->tpt;
-	if (NULL != tpt_old && tpt_old != tpt && 0 != tp_udata->tpdata)
-		return (EBUSY); /* Live on other thread: del it there first (it stay in that epoll). */
+	if (NULL != tpt_old && tpt_old != tpt && 0 != tp_udata->tpdata &&
+	    TP_EV_READ != TPDATA_EVENT_GET(tp_udata->tpdata) &&
+	    TP_EV_WRITE != TPDATA_EVENT_GET(tp_udata->tpdata))
+		return (EBUSY); /* Timer / process watch live on other thread: del it there first (pool descriptor stay in that epoll). */
 	tp_udata->tpt = tpt; /* The checks look at it. */
 	error = tpt_ev_validate(TP_CTL_ADD, ev, tp_udata);
 	if (0 != error) { /* Refused: live tp_udata stay on its thread. */
 		tp_udata->tpt = tpt_old;
 		return (error);
+	}
+	if (NULL != tpt_old && tpt_old != tpt && 0 != tp_udata->tpdata) {
+		/* Read / write live on other thread: move, do not leave it
+		 * in that epoll too. Caller may have closed the descriptor
+		 * (kernel removed it): error is not an error. */
+		struct epoll_event epev_old;
+
+		memset(&epev_old, 0x00, sizeof(epev_old));
+		epoll_ctl((int)tpt_old->io_fd, EPOLL_CTL_DEL,
+		    (int)tp_udata->ident, &epev_old);
+		tp_udata->tpdata = 0;
 	}
 
 	return (tpt_ev_post(TP_CTL_ADD, ev, tp_udata));
